@@ -118,3 +118,8 @@ func verifPar(f, g func()) {
 	go func() { defer wg.Done(); g() }()
 	wg.Wait()
 }
+
+func verifEvent(kind string, a, b, c int) {}
+func verifNodeOutcome(a, b int) int     { return nondetInt() }
+func verifCtxErrSet() bool               { return false }
+func verifCtxDoneChan(c chan struct{})   {}
